@@ -247,7 +247,7 @@ def css_unescape(content: str, string: bool = False) -> str:
 
         if m.group(1):
             codepoint = int(m.group(1)[1:], 16)
-            if codepoint == 0:
+            if codepoint == 0 or codepoint > 0x10FFFF:
                 codepoint = UNICODE_REPLACEMENT_CHAR
             value = chr(codepoint)
         elif m.group(2):
